@@ -113,8 +113,8 @@ static int legal_shape(int hm, int flags, int vp)
 static int submit_forms(const char *name)
 {
         char line[64];
-        static const char *SUF[4] = {"", "?", "=5", "=?"};
-        for (int s = 0; s < 4; s++) {
+        static const char *SUF[5] = {"", "?", "=5", "=?", "="};
+        for (int s = 0; s < 5; s++) {
                 int n = snprintf(line, sizeof line, "AT%s%s\n", name, SUF[s]);
                 SW.cases++;
                 if (sw_line((const uint8_t *)line, n)) return 1;
